@@ -248,6 +248,27 @@ def run_c14(rep, tier, rng, replay=None):
 
 
 # ---------------------------------------------------------------- C15
+def tie_word(names, rng):
+    """a word at the same (small) edit distance from two of the given names, if one is found by single substitutions"""
+    from .c20 import ref_lev
+    from .. import strgen
+    names = [n for n in names if n and all(c < 128 for c in n)]
+    rng.shuffle(names)
+    for a in names[:6]:
+        for b in names[:6]:
+            if a == b or len(a) != len(b):
+                continue
+            for i in range(len(a)):
+                for ch in set(b) | {ord("x")}:
+                    w = a[:i] + bytes([ch]) + a[i + 1:]
+                    if w in names:
+                        continue
+                    da, db = ref_lev(list(w), list(a)), ref_lev(list(w), list(b))
+                    if da == db and 0 < da < len(a) / 2:
+                        return w
+    return None
+
+
 def make_c15(rng):
     x = rng.random()
     prof = dict(PROFILE, p_init=0.5, p_desc=0.6, p_default=0.3, p_required=0.15, p_commands=0.5,
@@ -261,6 +282,14 @@ def make_c15(rng):
             t = b"\n".join(rng.sample(body, min(2, len(body)))) + b"\n" + t
             sc["ops"][[o["op"] for o in sc["ops"]].index("ini")]["text"] = t
     sc["ops"] += [{"op": "help"}, {"op": "man"}, {"op": "complete", "args": [rng.choice([b"-", b"--", b"", b"--a"])]}]
+    # an unknown command word equally near to two commands (names or aliases): the diagnostic must not depend on map order
+    root = sc["meta"]
+    names = [x for s2 in root["subs"] for x in [s2["name"]] + s2["aliases"]]
+    w = tie_word(names, rng) if len(names) > 1 else None
+    if w is None and names and rng.random() < 0.5:
+        w = rng.choice(names)[:-1] + b"x"
+    if w:
+        sc["ops"].append({"op": "parse", "args": [w]})
     sc["repeat"] = 6
     return sc
 
